@@ -110,16 +110,20 @@ def emit_cookie(om, name, value, secret, via_redirect=False):
     response); return the cookie-pair string of the Set-Cookie header."""
     if via_redirect in ('reused', 'reused-raise'):
         return emit_reused(om, name, value, secret, via_redirect == 'reused-raise')
-    app = om.default_app() if via_redirect else om.Ombott()
+    app = om.default_app() if via_redirect is True else om.Ombott()
     err = {}
 
     def h():
         try:
-            # cookie attributes (rotating) never change the value that comes back
+            if via_redirect == 'twice':
+                # the same name set before with another value (and deleted in between): the last one counts
+                app.response.set_cookie(name, 'first', path='/')
+                app.response.delete_cookie(name)
+            # cookie attributes (a function of the case) never change the value that comes back
             app.response.set_cookie(name, value, secret=secret, **options_for(name, value))
         except Exception as e:   # noqa
             err['e'] = f'{type(e).__name__}: {e}'
-        if via_redirect:
+        if via_redirect is True:
             om.redirect('/next')
         return 'ok'
     app.route('/set', 'GET', h, overwrite=True)
@@ -127,7 +131,7 @@ def emit_cookie(om, name, value, secret, via_redirect=False):
     if err:
         return None, 'set_cookie raised ' + err['e']
     sc = c.headers_all('Set-Cookie')
-    if c.code != (303 if via_redirect else 200) or len(sc) != 1:
+    if c.code != (303 if via_redirect is True else 200) or len(sc) != 1:
         return None, f'status {c.status}, {len(sc)} Set-Cookie headers'
     return cookie_pair(sc[0]), None
 
@@ -236,7 +240,7 @@ def work(spec):
                 case = {'kind': 'plain', 'name': name, 'value': v}
                 core.track(res, case)
                 res['states'] += 1
-                via = [False, True, 'reused', False, True, 'reused-raise'][i % 6]
+                via = [False, True, 'reused', 'twice', True, 'reused-raise'][i % 6]
                 case['redirect'] = via
                 pair, err = emit_cookie(om, name, v, None, via)
                 if err:
@@ -319,7 +323,7 @@ def work(spec):
             if err_r or got_r != value:
                 core.add_violation(res, dict(case0, redirect=True), f'signed cookie {name}={value!r} set before redirect(): sent back as {pair_r!r} reads {got_r!r}',
                                    sig='signed:roundtrip-redirect')
-            for mode in ('reused', 'reused-raise'):
+            for mode in ('reused', 'reused-raise', 'twice'):
                 pair_o, err_o = emit_cookie(om, name, value, secret, mode)
                 got_o = read_wsgi(om, pair_o, name, secret) if not err_o else err_o
                 c['via_reused_object'] += 1
@@ -454,7 +458,7 @@ def replay(case):
                         f'{v2!r} (a fresh request reads {got!r}); after a read and del request["HTTP_COOKIE"] it reads {v3!r}')
             if got == case['value'] or case['value'] == '':
                 return None
-            return (f'response.set_cookie({case["name"]!r}, {case["value"]!r}){" followed by redirect()" if case.get("redirect") is True else (" on a prepared HTTPResponse object that is " + ("raised" if case.get("redirect") == "reused-raise" else "returned") + " for two requests (second answer)" if case.get("redirect") else "")} emits {pair!r}; sent back as the Cookie header, '
+            return (f'response.set_cookie({case["name"]!r}, {case["value"]!r}){" followed by redirect()" if case.get("redirect") is True else (" on a prepared HTTPResponse object that is " + ("raised" if case.get("redirect") == "reused-raise" else "returned") + " for two requests (second answer)" if case.get("redirect") in ("reused", "reused-raise") else (" after the same name was set to another value and deleted on the same response" if case.get("redirect") == "twice" else ""))} emits {pair!r}; sent back as the Cookie header, '
                     f'request.get_cookie reads {got!r}')
         if case['kind'] == 'swap':
             proxy.armed = True
